@@ -11,8 +11,8 @@
   theorem C04_cfloat_to_native), so the result is the double that encodes the exact value `Cfloat.toNative`.  For wider
   sources (more than 52 fraction bits or es ≥ 12) the routine is followed step by step in double precision
   (`toDoubleWide`): the fraction is accumulated bit by bit with a rounding after every addition, `1.0 + f` is rounded, the
-  power of two comes from `1ull << e` for |e| < 64 and from `ipow` otherwise (2^e for |e| ≤ 1023, infinity above, and
-  1.0 / infinity = 0 below), `subnormal_exponent[es]` is 0.0 for es ≥ 12, and the final product is rounded.
+  power of two comes from `1ull << e` for |e| < 64 and from `ipow` otherwise (2^e for −1074 ≤ e ≤ 1023, infinity above,
+  0 below), `subnormal_exponent[es]` is 0.0 for es ≥ 12, and the final product is rounded.
   When source and target are the same type the defaulted copy constructor is selected.
 -/
 import UVerif.Basic
@@ -23,11 +23,13 @@ import UVerif.Generated.CfloatTables
 namespace UVerif.Cfloat
 open UVerif.Generated
 
-/-- `ipow(exponent)` : exponentiation by squaring in double precision -/
+/-- `ipow(exponent)` : exponentiation by squaring in double precision, base 2.0 for positive and (since the repair
+    "ipow() must not underflow to 0 …") base 0.5 for negative exponents: every partial product is a power of two, exact
+    down to the smallest subnormal 2^-1074; below that the product rounds to 0 (2^-1075 is a tie, to even) -/
 def ipowVal (ex : Int) : Val :=
   if ex ≥ 1024 then .inf false
-  else if ex ≤ -1024 then .fin false 0             -- 1.0 / infinity
-  else .fin false (pow2 ex)                         -- 2^-1023 is a subnormal double: exact
+  else if ex ≤ -1075 then .fin false 0
+  else .fin false (pow2 ex)
 
 /-- `to_native<double>` followed step by step in double precision (the general case; used for sources wider than a double) -/
 def toDoubleWide (c : Cfg) (b : Nat) : Val :=
